@@ -19,9 +19,24 @@ RULE = ('cwrs: for every (N,K) of the static mode\'s pulse cache (23 band sizes 
         'inputs per run: all LM, C, the CELT-only and hybrid band ranges plus random ones, totals -20..81600 incl. 0 and 8, trims 0..10, '
         'dynalloc-like offsets up to cap+quanta, encoder and decoder side, every output array and the coder calls compared; and every '
         'REAL call made by the encoder and decoder while coding 120 configurations (link-time --wrap). '
+        'hdrenc: the real celt_encode_with_ec inside the public encoder (opus_encode; link-time --wrap on the ec_enc_* entry '
+        'points, ec_laplace_encode, quant_coarse_energy and clt_compute_allocation) on 160 configurations (all LM, NB..FB, mono/stereo, CELT-only and hybrid, '
+        'CBR/VBR/CVBR, tiny budgets, silence) x 25 (quick) / 150 (thorough) frames: the recorded decisions are replayed through the Lean '
+        'encoder model and the complete list of coder calls with their arguments, the final coder state and the entry condition '
+        'storage == nbCompressedBytes must be identical; plus '
+        'quant_coarse_energy called directly on 20k / 200k random states incl. budgets of 0..40 bits. '
         'A case is one protocol line; a block line stands for up to 4096 (cwrs) / 32768 (laplace) compared evaluations; '
         'distinct = (op, outcome kind) classes')
 NOT_COVERED = [
+    'CELT header round trip: the band data behind the allocation (quant_all_bands: C08 owner / C03), the FUZZING build, custom modes, '
+    'lfe streams on real frames (lfe is modelled and covered by the direct coarse-energy tie only), the degenerate hybrid case in which the '
+    'SILK part has already filled the packet (tell >= len*8 on entry: hypothesis hroom), and the allocation of SILENT frames (encoder and '
+    'decoder legitimately call clt_compute_allocation with different, sub-one-bit budgets when VBR shrinks the packet)',
+    'OBSERVATION on the unchanged code (no listed property violated; reported to the coordinator): in quant_coarse_energy_impl\'s one-bit '
+    'fall-back (budget-tell == 1) the encoder keeps qi = IMIN(0, qi) for its own oldEBands/error while the decoder reconstructs -1; the '
+    'bits_left < 16 clamp hides this for every band but i == start, so after a hybrid frame whose SILK part leaves exactly one bit the '
+    'encoder\'s prediction state of band `start` can differ from the decoder\'s (theorem coarse_state_agrees_except_one_bit_start pins '
+    'the branch down; reproduction: harness/c17_hdrenc.c coarse, 113 of 20000 direct calls; proposed patch qi = IMAX(-1, IMIN(0, qi)))',
     'bit allocation: the FUZZING build\'s random skip decision, custom modes (only the static 48 kHz mode\'s tables), and the true cost of '
     'ec_enc_uint for the intensity parameter (charged at LOG2_FRAC_TABLE[codedBands-start] as the allocator itself does; C08 bounds the coder)',
     'the range coder itself (ec_enc_uint/ec_dec_uint, ec_encode_bin/ec_decode_bin, ec_enc_icdf/ec_dec_icdf) is property C08; '
@@ -34,6 +49,10 @@ NOT_COVERED = [
     'that each call site passes the ftb recorded in OpusModel/Icdf.lean is checked by a source scan (tie icdf-ftb-scan), not by the compiler',
 ]
 ASSUMPTIONS = [
+    'CELT header round trip: enc->storage == nbCompressedBytes <= 1275 on entry (opus_encoder.c shrinks the coder before calling CELT); no '
+    'ec_enc_shrink after the header; final length = budgeted size, or (VBR) at least 16 whole bits and tell_frac+total_boost+48 eighth-bits '
+    'beyond the header (celt_encoder.c min_allowed gives 128); tell < len*8 on entry; with the post-filter on, tell+2 <= len*8 in front of the '
+    'tapset (nbAvailableBytes > 12*C); intensity >= start and dual_stereo in {0,1}; nbits_total < 2^29; the range coder reports no error',
     'bit allocation: start < end <= 21, C in {1,2}, LM <= 3, offsets >= 0, 0 <= cap <= 2^24 (proved for init_caps), total <= 2^24; on the '
     'encoder side dual_stereo in {0,1} and start <= intensity (celt_encoder.c clamps both); C int arithmetic modelled unbounded with the '
     'uint32 conversion of celt_udiv modelled exactly',
@@ -51,13 +70,10 @@ REQUIRED_THEOREMS = [
     'OpusProps.C17.laplace_domain_ok', 'OpusProps.C17.laplace_int_ranges', 'OpusProps.C17.bits2pulses_spec',
     'OpusProps.C17.pulses2bits_cache', 'OpusProps.C17.cache_caps_recomputed', 'OpusProps.C17.cwrs_int_ranges',
     'OpusProps.C17.cwrs_val_ranges', 'OpusProps.C17.init_caps_domain', 'OpusProps.C17.alloc_total_ranges_budget',
-    'OpusProps.C17.alloc_enc_dec_agree', 'OpusProps.C17.celt_header_roundtrip_part1',
+    'OpusProps.C17.alloc_enc_dec_agree', 'OpusProps.C17.celt_header_roundtrip',
+    'OpusProps.C17.celt_header_roundtrip_silence', 'OpusProps.C17.coarse_state_agrees_except_one_bit_start',
 ]
 UNPROVED = [
-    'celt_header_roundtrip (rest): tf_encode/tf_decode, spread, dynalloc boosts, allocation trim, the VBR shrink and the hand-over to '
-    'clt_compute_allocation (alloc_enc_dec_agree then applies), and the silent-frame case (silence flag 1: every later budget test fails '
-    'on both sides) — the encoder model for all of these is tied to the real encoder with 0 mismatches; the lock-step proof so far '
-    'covers silence flag 0, post-filter, transient, intra and coarse energy (celt_header_roundtrip_part1)',
 ]
 LEVEL_TEXT = ('full proof: U/V recurrence and symmetry; cwrsi and icwrs (transcribed loop by loop from cwrs.c, both branches and '
               'the n==2/n==1 tails) are mutually inverse bijections between K-pulse vectors and [0,V(N,K)) for ALL N>=2, K>=1; the 1272 '
@@ -70,7 +86,12 @@ LEVEL_TEXT = ('full proof: U/V recurrence and symmetry; cwrsi and icwrs (transcr
               'characterised exactly (nearest neighbour of the budget, lower index on a tie) on every cache row, pulses2bits is monotone '
               '(strict for N>=3); cache.caps equals its recomputation; icwrs/cwrsi/laplace intermediates stay below 2^32; the CELT bit '
               'allocation (clt_compute_allocation + interp_bits2pulses + init_caps, transcribed) is total on its domain, keeps every output in '
-              'range, meets the budget exactly, and its decoder side reproduces the encoder side from the coded symbols')
+              'range, meets the budget exactly, and its decoder side reproduces the encoder side from the coded symbols; the CELT frame header: the '
+              'encoder\'s symbol writes (celt_encode_with_ec up to the return of clt_compute_allocation, every float-driven decision an input, '
+              'transcribed and tied call by call) round-trip through C03\'s decoder model on the finished packet for every decision stream, '
+              'buffer and continuation: all header fields, the allocation and rng/tell/tell_frac at both hand-overs agree, every budget test '
+              'is shown to take the same branch on both sides; silent frames separately; the one branch where the encoder\'s kept coarse '
+              'energy differs from the decoded one is pinned down')
 LEVEL_NOTE = ('trusted: Lean kernel; the extractors tools/extract/CeltTables.c, SilkIcdf.c (tables go through the C compiler); the '
               'transcription of cwrs.c/laplace.c into Lean, tied by exact differential runs on the real code under ASan/UBSan with only '
               'the range-coder entry points stubbed; ftb values and table slices per call site (source scan + the tables captured at the '
